@@ -141,8 +141,9 @@ Section C01.
     last (serve_hist re_match re_replace ip_allow sv (pre ++ [(m, rq)])%list) (Panicked, None)
       = (Dispatched (pe_backend p) path', Some h).
   Proof. exact (mapper_history_dispatch re_match re_replace ip_allow). Qed.
-  (** the router matches, rewrites and keys its cache on the DECODED path (URL.Path) only: two
-      requests that differ only in their wire encoding (URL.RawPath: %2F, %41 ...) are answered
+  (** the router matches, rewrites and keys its cache on the DECODED path (URL.Path) only, and on
+      the Host header only: two requests that differ only in their wire encoding (URL.RawPath:
+      %2F, %41 ...) or in the TLS server name of their connection ([rq_sni]) are answered
       alike and share the cache key *)
   Theorem C01_rawpath_irrelevant : forall sv a b,
     (rq_host a = rq_host b /\ rq_method a = rq_method b /\ rq_path a = rq_path b /\
@@ -164,6 +165,14 @@ Section C01.
     (sv_xff sv = true -> forall v, alookup "X-Forwarded-For" (rq_headers rq) = Some v -> v <> "" ->
        forwarded_for sv rq = if str_contains (rq_ip rq) v then v else v ++ "," ++ rq_ip rq).
   Proof. exact forwarded_for_spec. Qed.
+  (** only paths under "/.well-known/acme-challenge/" - trailing slash included - are withheld from
+      routing (ACME HTTP-01); a path merely sharing a shorter prefix with it
+      (/.well-known/acme-challenges.json, /.well-known/acme-challenge) is routed like any other *)
+  Theorem C01_reserved_prefix_exact : forall sv rq,
+    (reserved_path rq = true <-> exists rest, rq_path rq = acme_prefix ++ rest) /\
+    (reserved_path rq = false ->
+       mux_serve re_match re_replace ip_allow sv rq = serve_nocache re_match re_replace ip_allow sv rq).
+  Proof. exact (reserved_exact re_match re_replace ip_allow). Qed.
 End C01.
 
 Print Assumptions C01_loop_refines_spec.
@@ -185,6 +194,7 @@ Print Assumptions C01_mapper_history_dispatch.
 Print Assumptions C01_rawpath_irrelevant.
 Print Assumptions C01_xff_option_irrelevant_for_routing.
 Print Assumptions C01_forwarded_for.
+Print Assumptions C01_reserved_prefix_exact.
 
 (** non-vacuity: a concrete rule set on which the clauses are exercised:
     first match skips a header-conditioned entry, 400 / 405 / 404 / 503, prefix and regexp rewrite *)
@@ -203,7 +213,7 @@ Example C01_nonvacuous :
                                               e "" "" "^/r" [] "/s" "D" [];
                                               e "/h" "" "" [] "" "A" [ {| hc_key := "X"; hc_values := ["v1"]; hc_regexp := "" |} ] ] |} ];
                sv_backends := ["A"; "B"; "C"]; sv_body := 0%Z; sv_xff := true |} in
-  let rq h m p hs ip := {| rq_host := h; rq_method := m; rq_path := p; rq_rawpath := ""; rq_headers := hs; rq_ip := ip; rq_body := (if String.eqb m "PUT" then 3 else if String.eqb m "PATCH" then 5 else 0)%Z |} in
+  let rq h m p hs ip := {| rq_host := h; rq_method := m; rq_path := p; rq_rawpath := ""; rq_headers := hs; rq_ip := ip; rq_body := (if String.eqb m "PUT" then 3 else if String.eqb m "PATCH" then 5 else 0)%Z; rq_sni := "other.example" |} in
   valid_server sv = true /\
   map (serve_nocache re rep ipa sv)
       [ rq "a.com:80" "GET" "/a" [("X", "v1")] "1.1.1.1"; rq "a.com" "GET" "/a" [] "1.1.1.1";
